@@ -92,6 +92,12 @@ func c05Gen(rng *rand.Rand, tier string, w *bufio.Writer) {
 		emit("p0", append(append([]string{}, ops...), "close", "getall", "count"))
 		emit("p1", append(append([]string{}, ops...), "close", "getall", "compact", "inc i64 c0 1 - - -", "restart", "getall"))
 	}
+	// keys the file format cannot hold (the entry header stores the key length in 16 bits and refuses an empty
+	// key): the empty key and a 65536-byte key next to the longest storable one (65535 bytes) and ordinary keys
+	for _, k := range []string{"p1", "p0"} {
+		emit(k, []string{"set 11 a|i64:1||||| |i64:2||||| x@65536|i64:4||||| x@65535|i64:5||||| z|i64:3|||||", "getall", "count", "close", "getall", "count",
+			"iske x@65535", "iske x@65536", "iske a"})
+	}
 	// the write ticker (kind p1t, 1 s): the same delete / re-create / delete around ticker runs, zero-like
 	// values written by the ticker rather than by close, and one random history; a wait of 2.5 s
 	// precedes every request whose outcome depends on what the ticker has written
